@@ -60,7 +60,7 @@ fn plan(p: &str) -> Option<Plan> {
         "C19" => d(&[("hello", 7), ("dag", 2), ("dag-faults", 1)], &["C19"], 6000, 80000, "a hello decision 'no sync' was taken between replicas with different head sets"),
         "C20" => d(&[("cache", 6), ("dag", 3), ("adversarial", 1)], &["C20"], 6000, 80000, "a peer cache update removed an ancestor entry or ignored an uncommitted address"),
         "C15" => d(&[("crash", 7), ("crash-subsector", 1)], &["C15"], 3000, 40000, "crash inside a commit with >= 1 pending write partially surviving"),
-        "C21" => d(&[("dag", 3), ("sync-size", 2), ("adversarial", 1)], &["C21"], 3000, 40000, "the run's searches, braids and sync sessions exercised pop, push and at least one of drain_above / cover_up_to / pop_duplicates on a monitored queue"),
+        "C21" => d(&[("dag", 3), ("sync-size", 2), ("adversarial", 1), ("queue", 1)], &["C21"], 3000, 40000, "the run's searches, braids and sync sessions exercised pop, push and at least one of drain_above / cover_up_to / pop_duplicates on a monitored queue"),
         _ => None,
     }
 }
@@ -111,6 +111,153 @@ struct ReplayFile {
     steps: Vec<Step>,
     violation: Found,
     minimised_from: usize,
+    /// Build configuration the run needs: "knobs" = small spill / compaction / prealloc constants
+    /// and the `low-mem-usage` sync limits; "real" = the shipped constants.
+    #[serde(default = "real_build")]
+    build: String,
+}
+
+fn real_build() -> String {
+    "real".into()
+}
+
+pub fn this_build() -> &'static str {
+    if cfg!(aranya_verif_knobs) { "knobs" } else { "real" }
+}
+
+/// What one process (one build configuration) contributes to a batch.
+#[derive(serde::Serialize, serde::Deserialize, Default)]
+struct Agg {
+    build: String,
+    runs: u64,
+    counters: BTreeMap<String, u64>,
+    probes: BTreeMap<String, u64>,
+    shapes: BTreeSet<u64>,
+    histories: BTreeSet<u64>,
+    distinct_nontrivial: BTreeSet<u64>,
+    anomalies: Vec<String>,
+    other: BTreeMap<String, u64>,
+    steps_total: u64,
+    sim_ms: u64,
+    families: BTreeMap<String, u64>,
+    violations: Vec<VJson>,
+    samples: Vec<serde_json::Value>,
+    max_commands: usize,
+}
+
+#[derive(serde::Serialize, serde::Deserialize, Clone)]
+struct VJson {
+    property: String,
+    class: String,
+    sig: String,
+    detail: String,
+    seed: u64,
+    replay: String,
+}
+
+impl Agg {
+    fn merge(&mut self, o: Agg) {
+        self.runs += o.runs;
+        for (k, v) in o.counters {
+            *self.counters.entry(k).or_insert(0) += v;
+        }
+        for (k, v) in o.probes {
+            *self.probes.entry(format!("{k}@{}", o.build)).or_insert(0) += v;
+        }
+        self.shapes.extend(o.shapes);
+        self.histories.extend(o.histories);
+        self.distinct_nontrivial.extend(o.distinct_nontrivial);
+        self.anomalies.extend(o.anomalies.into_iter().take(6));
+        for (k, v) in o.other {
+            *self.other.entry(k).or_insert(0) += v;
+        }
+        self.steps_total += o.steps_total;
+        self.sim_ms += o.sim_ms;
+        for (k, v) in o.families {
+            *self.families.entry(format!("{k}@{}", o.build)).or_insert(0) += v;
+        }
+        for v in o.violations {
+            if !self.violations.iter().any(|x| x.sig == v.sig) {
+                self.violations.push(v);
+            }
+        }
+        self.samples.extend(o.samples.into_iter().take(1));
+        self.max_commands = self.max_commands.max(o.max_commands);
+    }
+}
+
+/// Runs this process's share of the batch: run indexes `i` with `i % of == part`.
+fn run_share(cli: &Cli, plan: &Plan, runs: u64, part: u64, of: u64, jobs: usize) -> Agg {
+    let big_every = if cli.tier == Tier::Thorough { 25 } else { 60 };
+    let only_family = cli.extra.get("family").cloned();
+    let lookups_always = cli.property == "C11";
+    let max_steps: Option<usize> = cli.extra.get("steps").and_then(|s| s.parse().ok());
+    let seed = cli.seed;
+    let mine: Vec<u64> = (0..runs).filter(|i| i % of == part).collect();
+    let outcomes: Vec<(u64, Cfg, Outcome)> = vcommon::parallel_map(mine.len() as u64, jobs, |k| {
+        let i = mine[k as usize];
+        let s = vcommon::mix(seed, i);
+        let fam: String = only_family.clone().unwrap_or_else(|| pick_family(plan, s).to_string());
+        let big = i % big_every == big_every - 1;
+        let mut cfg = family_cfg(&fam, s, big);
+        if let Some(n) = max_steps {
+            cfg.max_steps = n;
+        }
+        if lookups_always {
+            cfg.lookup_every = 1;
+        }
+        let o = run_seeded(&cfg);
+        (s, cfg, o)
+    });
+    let mut a = Agg { build: this_build().to_string(), runs: outcomes.len() as u64, ..Default::default() };
+    for (s, cfg, o) in &outcomes {
+        for (k, v) in &o.stats.counters {
+            *a.counters.entry(k.clone()).or_insert(0) += v;
+        }
+        for (k, v) in &o.stats.probes {
+            *a.probes.entry(k.clone()).or_insert(0) += v;
+        }
+        *a.families.entry(cfg.family.clone()).or_insert(0) += 1;
+        a.shapes.insert(o.shape_hash);
+        a.histories.insert(o.event_hash);
+        a.steps_total += o.stats.steps;
+        a.sim_ms += o.stats.sim_time_ms;
+        a.max_commands = a.max_commands.max(o.commands);
+        if nontrivial(&cli.property, o) {
+            a.distinct_nontrivial.insert(o.event_hash ^ o.shape_hash.rotate_left(21));
+        }
+        for an in &o.stats.anomalies {
+            if a.anomalies.len() < 12 {
+                a.anomalies.push(format!("seed {s:#x} ({}): {an}", this_build()));
+            }
+            *a.counters.entry("anomalies".into()).or_insert(0) += 1;
+        }
+        let (mine, others) = reported(plan, &o.found);
+        for f in others {
+            *a.other.entry(format!("{}:{}", f.class, f.sig)).or_insert(0) += 1;
+        }
+        if let Some(f) = mine.first() {
+            if a.violations.len() < 5 && !a.violations.iter().any(|v| v.sig == f.sig) {
+                let v = minimise::minimise_and_write(&cli.property, *s, cfg, &o.steps, f, &plan_reports(plan));
+                a.violations.push(VJson { property: v.property, class: v.class, sig: v.sig, detail: v.detail, seed: v.seed, replay: v.replay.display().to_string() });
+            }
+            *a.counters.entry("violating_runs".into()).or_insert(0) += 1;
+        }
+        if a.samples.len() < 2 && nontrivial(&cli.property, o) && o.steps.len() <= 40 {
+            a.samples.push(json!({"seed": format!("{s:#x}"), "build": this_build(), "family": cfg.family, "replicas": cfg.n_reps, "steps": o.steps}));
+        }
+    }
+    if a.samples.is_empty() {
+        if let Some((s, cfg, o)) = outcomes.first() {
+            a.samples.push(json!({"seed": format!("{s:#x}"), "build": this_build(), "family": cfg.family, "replicas": cfg.n_reps, "steps": o.steps.iter().take(30).collect::<Vec<_>>()}));
+        }
+    }
+    a
+}
+
+/// Path of the binary built in the other configuration (set by `/verif/check`).
+fn alt_bin() -> Option<std::path::PathBuf> {
+    std::env::var_os("DAGSIM_ALT_BIN").map(std::path::PathBuf::from).filter(|p| p.exists())
 }
 
 fn main() {
@@ -129,111 +276,82 @@ fn main() {
         Tier::Quick => plan.quick_runs,
         Tier::Thorough => plan.thorough_runs,
     });
-    let big_every = if cli.tier == Tier::Thorough { 25 } else { 60 };
-    let only_family = cli.extra.get("family").cloned();
-    let lookups_always = cli.property == "C11";
-    let max_steps: Option<usize> = cli.extra.get("steps").and_then(|s| s.parse().ok());
+    // Child mode: run a share and hand the aggregate to the parent.
+    if let Some(out) = cli.extra.get("emit") {
+        let (part, of) = cli.extra.get("part").and_then(|p| p.split_once('/')).and_then(|(a, b)| Some((a.parse().ok()?, b.parse().ok()?))).unwrap_or((0u64, 1u64));
+        let a = run_share(&cli, &plan, runs, part, of, cli.jobs);
+        std::fs::write(out, serde_json::to_string(&a).expect("aggregate serialises")).unwrap_or_else(|e| vcommon::harness_error(&format!("cannot write {out}: {e}")));
+        return;
+    }
     let mut ev = Evidence::new(&cli, "exploration");
-    let seed = cli.seed;
-    let outcomes: Vec<(u64, Cfg, Outcome)> = vcommon::parallel_map(runs, cli.jobs, |i| {
-        let s = vcommon::mix(seed, i);
-        let fam: String = only_family.clone().unwrap_or_else(|| pick_family(&plan, s).to_string());
-        let big = i % big_every == big_every - 1;
-        let mut cfg = family_cfg(&fam, s, big);
-        if let Some(n) = max_steps {
-            cfg.max_steps = n;
-        }
-        if lookups_always {
-            cfg.lookup_every = 1;
-        }
-        let o = run_seeded(&cfg);
-        (s, cfg, o)
-    });
-
-    // Aggregate.
-    let mut counters: BTreeMap<String, u64> = BTreeMap::new();
-    let mut probes: BTreeMap<String, u64> = BTreeMap::new();
-    let mut shapes: BTreeSet<u64> = BTreeSet::new();
-    let mut histories: BTreeSet<u64> = BTreeSet::new();
-    let mut distinct_nontrivial: BTreeSet<u64> = BTreeSet::new();
-    let mut anomalies: Vec<String> = Vec::new();
-    let mut other: BTreeMap<String, u64> = BTreeMap::new();
-    let mut steps_total = 0u64;
-    let mut sim_ms = 0u64;
-    let mut families: BTreeMap<String, u64> = BTreeMap::new();
-    let mut violations: Vec<Violation> = Vec::new();
-    let mut samples = Vec::new();
-    let mut max_commands = 0;
-    for (s, cfg, o) in &outcomes {
-        for (k, v) in &o.stats.counters {
-            *counters.entry(k.clone()).or_insert(0) += v;
-        }
-        for (k, v) in &o.stats.probes {
-            *probes.entry(k.clone()).or_insert(0) += v;
-        }
-        *families.entry(cfg.family.clone()).or_insert(0) += 1;
-        shapes.insert(o.shape_hash);
-        histories.insert(o.event_hash);
-        steps_total += o.stats.steps;
-        sim_ms += o.stats.sim_time_ms;
-        max_commands = max_commands.max(o.commands);
-        if nontrivial(&cli.property, o) {
-            distinct_nontrivial.insert(o.event_hash ^ o.shape_hash.rotate_left(21));
-        }
-        for a in &o.stats.anomalies {
-            if anomalies.len() < 12 {
-                anomalies.push(format!("seed {s:#x}: {a}"));
+    // Two build configurations share the batch when the other binary is available: even run
+    // indexes here, odd ones in the other build (real constants vs. small constants + low-mem).
+    let alt = if cli.extra.contains_key("single") { None } else { alt_bin() };
+    let mut agg = match &alt {
+        None => run_share(&cli, &plan, runs, 0, 1, cli.jobs),
+        Some(bin) => {
+            let tmp = std::env::temp_dir().join(format!("dagsim-agg-{}-{}.json", std::process::id(), cli.property));
+            let mut cmd = std::process::Command::new(bin);
+            cmd.arg("--property").arg(&cli.property).arg("--tier").arg(cli.tier.as_str()).arg("--seed").arg(cli.seed.to_string());
+            cmd.arg("--runs").arg(runs.to_string()).arg("--part").arg("1/2").arg("--emit").arg(&tmp);
+            cmd.arg("--jobs").arg((cli.jobs / 2).max(1).to_string());
+            for k in ["family", "steps"] {
+                if let Some(v) = cli.extra.get(k) {
+                    cmd.arg(format!("--{k}")).arg(v);
+                }
             }
-            *counters.entry("anomalies".into()).or_insert(0) += 1;
-        }
-        let (mine, others) = reported(&plan, &o.found);
-        for f in others {
-            *other.entry(format!("{}:{}", f.class, f.sig)).or_insert(0) += 1;
-        }
-        if let Some(f) = mine.first() {
-            if violations.len() < 5 && !violations.iter().any(|v| v.sig == f.sig) {
-                let v = minimise::minimise_and_write(&cli.property, *s, cfg, &o.steps, f, &plan_reports(&plan));
-                violations.push(v);
+            if cli.has_flag("no-minimise") {
+                cmd.arg("--no-minimise");
             }
-            *counters.entry("violating_runs".into()).or_insert(0) += 1;
+            let child = cmd.spawn().unwrap_or_else(|e| vcommon::harness_error(&format!("cannot start {}: {e}", bin.display())));
+            let mut a = run_share(&cli, &plan, runs, 0, 2, (cli.jobs - cli.jobs / 2).max(1));
+            let out = child.wait_with_output().unwrap_or_else(|e| vcommon::harness_error(&format!("waiting for the other build failed: {e}")));
+            if !out.status.success() {
+                vcommon::harness_error(&format!("the other build configuration exited with {}", out.status));
+            }
+            let text = std::fs::read_to_string(&tmp).unwrap_or_else(|e| vcommon::harness_error(&format!("no aggregate from the other build: {e}")));
+            let _ = std::fs::remove_file(&tmp);
+            let b: Agg = serde_json::from_str(&text).unwrap_or_else(|e| vcommon::harness_error(&format!("bad aggregate from the other build: {e}")));
+            // Probes and families of this build are tagged too, so the evidence shows which
+            // configuration reached which branch.
+            let mut merged = Agg::default();
+            merged.merge(std::mem::take(&mut a));
+            merged.merge(b);
+            merged
         }
-        if samples.len() < 2 && nontrivial(&cli.property, o) && o.steps.len() <= 40 {
-            samples.push(json!({"seed": format!("{s:#x}"), "family": cfg.family, "replicas": cfg.n_reps, "steps": o.steps}));
-        }
+    };
+    if alt.is_none() {
+        agg.build = this_build().to_string();
     }
-    if samples.is_empty() {
-        if let Some((s, cfg, o)) = outcomes.first() {
-            samples.push(json!({"seed": format!("{s:#x}"), "family": cfg.family, "replicas": cfg.n_reps, "steps": o.steps.iter().take(30).collect::<Vec<_>>()}));
-        }
-    }
-    ev.evaluations = outcomes.len() as u64;
-    ev.distinct_nontrivial = distinct_nontrivial.len() as u64;
+    let violations: Vec<Violation> = agg.violations.iter().map(|v| Violation { property: v.property.clone(), class: v.class.clone(), sig: v.sig.clone(), detail: v.detail.clone(), seed: v.seed, replay: v.replay.clone().into() }).collect();
+    ev.evaluations = agg.runs;
+    ev.distinct_nontrivial = agg.distinct_nontrivial.len() as u64;
     ev.rule = format!(
         "each evaluation is one seeded simulated run (family drawn per run from {:?}): replicas run the real aranya-runtime ClientState/Transaction/sync code over a simulated network and storage; steps, deliveries and faults are drawn from PRNG streams derived from mix(seed, run index). A run is counted non-trivial when: {}. Distinct = distinct (event-log hash, DAG shape hash).",
         plan.families, plan.nontrivial
     );
-    ev.samples = samples;
+    ev.samples = agg.samples.clone();
     ev.violations = violations.len() as u64;
-    let faults: BTreeMap<&String, &u64> = counters.iter().filter(|(k, _)| k.starts_with("fault.")).collect();
+    let faults: BTreeMap<&String, &u64> = agg.counters.iter().filter(|(k, _)| k.starts_with("fault.")).collect();
     ev.set("faults_fired", json!(faults));
-    ev.set("probes", json!(probes));
-    ev.set("counters", json!(counters));
-    ev.set("families", json!(families));
-    ev.set("distinct_dag_shapes", json!(shapes.len()));
-    ev.set("distinct_histories", json!(histories.len()));
+    ev.set("probes", json!(agg.probes));
+    ev.set("counters", json!(agg.counters));
+    ev.set("families", json!(agg.families));
+    ev.set("distinct_dag_shapes", json!(agg.shapes.len()));
+    ev.set("distinct_histories", json!(agg.histories.len()));
     ev.set("distinct_measure", json!("histories: FNV hash of the per-run event log (every step outcome, delivered message, state digest); shapes: canonical parent/priority structure of the global DAG"));
-    ev.set("sim_steps", json!(steps_total));
-    ev.set("sim_time_s", json!(sim_ms as f64 / 1000.0));
+    ev.set("sim_steps", json!(agg.steps_total));
+    ev.set("sim_time_s", json!(agg.sim_ms as f64 / 1000.0));
     ev.set("sim_time_note", json!("the library has no timers; simulated time only orders network events"));
-    ev.set("largest_graph_commands", json!(max_commands));
-    ev.set("anomalies_outside_claimed_properties", json!(anomalies));
-    ev.set("other_property_findings_not_reported_by_this_check", json!(other));
+    ev.set("largest_graph_commands", json!(agg.max_commands));
+    ev.set("anomalies_outside_claimed_properties", json!(agg.anomalies));
+    ev.set("other_property_findings_not_reported_by_this_check", json!(agg.other));
     ev.set(
         "components",
         json!({
-            "real": ["aranya-runtime ClientState, Transaction, braiding, convergence map, LinearStorageProvider, fact indexes, Session, SyncRequester, SyncResponder, PeerCache, TraversalQueue"],
-            "stub": ["network (SimNet)", "policy (DagPolicy, Rust; VM not in the loop)", "effect sink (RecSink)", "spill (in-memory with injected errors)", "memory-backed IoManager from the repository's testing module unless the run is file-backed"],
-            "build": {"knobs": cfg!(aranya_verif_knobs), "low_mem": cfg!(feature = "low-mem")}
+            "real": ["aranya-runtime ClientState, Transaction, braiding, convergence map, LinearStorageProvider, fact indexes, Session, SyncRequester, SyncResponder, PeerCache, TraversalQueue; for file-backed replicas also storage/linear/libc (FileManager, Writer, Reader) and aranya-libc above the system-call seam"],
+            "stub": ["network (SimNet)", "policy (DagPolicy, Rust; VM not in the loop)", "effect sink (RecSink)", "spill (in-memory with injected errors)", "memory-backed IoManager from the repository's testing module unless the run is file-backed", "disk below the system calls (SimFs) for file-backed replicas"],
+            "build_configurations": if alt.is_some() { json!(["real (shipped constants): even run indexes", "knobs (braid block 4, convergence blocks 3x2, fact-index depth 3, skip gap 3, prealloc chunk 8 KiB) + low-mem-usage sync limits: odd run indexes"]) } else { json!([this_build()]) }
         }),
     );
     ev.assumptions = vec![
@@ -245,12 +363,12 @@ fn main() {
     println!(
         "{}: {} runs, {} steps, {} distinct histories, {} non-trivial, {} violations, {} anomalies",
         cli.property,
-        outcomes.len(),
-        steps_total,
-        histories.len(),
-        distinct_nontrivial.len(),
+        agg.runs,
+        agg.steps_total,
+        agg.histories.len(),
+        agg.distinct_nontrivial.len(),
         violations.len(),
-        counters.get("anomalies").copied().unwrap_or(0)
+        agg.counters.get("anomalies").copied().unwrap_or(0)
     );
     std::process::exit(code);
 }
@@ -262,6 +380,14 @@ fn plan_reports(plan: &Plan) -> Vec<String> {
 fn replay_file(cli: &Cli, path: &std::path::Path) -> i32 {
     let text = std::fs::read_to_string(path).unwrap_or_else(|e| vcommon::harness_error(&format!("cannot read replay {}: {e}", path.display())));
     let rf: ReplayFile = serde_json::from_str(&text).unwrap_or_else(|e| vcommon::harness_error(&format!("bad replay file: {e}")));
+    if rf.build != this_build() {
+        // The run needs the other build configuration: hand over.
+        let Some(bin) = alt_bin() else {
+            vcommon::harness_error(&format!("replay needs the {:?} build of dagsim; run it through /verif/check", rf.build));
+        };
+        let status = std::process::Command::new(bin).args(std::env::args().skip(1)).env_remove("DAGSIM_ALT_BIN").status().unwrap_or_else(|e| vcommon::harness_error(&format!("cannot start the other build: {e}")));
+        return status.code().unwrap_or(2);
+    }
     let o = run::replay(&rf.cfg, &rf.steps);
     let hit = o.found.iter().find(|f| f.class == rf.violation.class);
     match hit {
